@@ -229,6 +229,11 @@ func (c *Compressor) compressValue(v float64) (uint64, error) {
 	leadingZeros := leardingZeros(xor)
 	trailingZeros := trailingZeros(xor)
 
+	// The number of leading zeros is stored in 5 bits.
+	if leadingZeros >= 32 {
+		leadingZeros = 31
+	}
+
 	if err := c.bw.writeBit(one); err != nil {
 		log.Errorf("Compressor.compressValue: failed to write one bit. compressor=%+v, bitWriter=%+v, err=%v", c, c.bw, err)
 		return 0, fmt.Errorf("failed to write one bit: %w", err)
